@@ -8,6 +8,10 @@
                                           tied to the C code by checks/C04.py)
   Every theorem quantifies over ALL inputs, capacities ≥ 1 and ways of cutting
   the input into buffers; none of them is `_partial`.
+  Not here (they need the scheduler model of C03): `blocks_nonseq`/`blocks_seq`,
+  i.e. that `do_collect`/`do_collect_seq` call `collect` on exactly the
+  remainders `xs.drop …`; `collect_pack_single` + `blocksOf_unfold` are the two
+  facts that proof needs from this package.
 -/
 import LbzVerif.Lemmas.CollectSpec
 
@@ -98,6 +102,29 @@ theorem pack_largest (cap : Nat) (xs : List UInt8) (j : Nat) (hj : j ≤ xs.leng
 /-- The fourth byte of a run is left out when only one byte of room remains. -/
 example : pack 4 [8, 8, 8, 8, 8, 2] = 3 ∧ pack 5 [8, 8, 8, 8, 8, 2] = 5 ∧
     pack 6 [8, 8, 8, 8, 8, 2] = 6 := by decide
+
+/-- Progress: with room for at least one byte, a non-empty input always yields a
+non-empty block (so cutting an input into blocks terminates). -/
+theorem pack_pos (cap : Nat) (hcap : 1 ≤ cap) (xs : List UInt8) (hne : xs ≠ []) :
+    1 ≤ pack cap xs :=
+  pack_pos' cap hcap xs hne
+
+/-- Cutting a chunk (default mode) or the whole input (`--sequential`) into
+blocks: the first block is the `pack` prefix, the rest is cut the same way … -/
+theorem blocksOf_unfold (cap : Nat) (hcap : 1 ≤ cap) (xs : List UInt8) :
+    blocksOf cap xs =
+      if xs = [] then []
+      else xs.take (pack cap xs) :: blocksOf cap (xs.drop (pack cap xs)) :=
+  blocksOf_eq cap hcap xs
+
+/-- … and no byte is lost or reordered. -/
+theorem blocksOf_flatten (cap : Nat) (hcap : 1 ≤ cap) (xs : List UInt8) :
+    (blocksOf cap xs).flatten = xs :=
+  blocksOf_flatten' cap hcap xs.length xs (Nat.le_refl _)
+
+example : blocksOf 5 [1, 1, 1, 1, 1, 1, 2, 2, 2, 2, 3] = [[1, 1, 1, 1, 1, 1], [2, 2, 2, 2], [3]] ∧
+    blocksOf 4 [1, 1, 1, 1, 1, 2] = [[1, 1, 1], [1, 1, 2]] := by
+  decide
 
 /-! ## `collect` -/
 
